@@ -14,7 +14,7 @@
    A (tag, text) pair the harness did not supply counts as exception class 99, so that a value
    check the model performs and the harness did not foresee shows up as a disagreement. *)
 From Coq Require Import ZArith NArith List Bool.
-From AF Require Import Base.Sx Py.Str Fix.SchemaModel.
+From AF Require Import Base.Sx Py.Str Fix.SchemaModel Fix.SchemaParse.
 From AFGen Require Import GenSchema.
 Import ListNotations.
 Open Scope Z_scope.
@@ -147,8 +147,114 @@ Definition parse_schema (s : sx) : option schema :=
   | _ => None
   end.
 
+(* ---- the parse model (Fix/SchemaParse.v) ----
+   request [3, dict, [i0, i1, ...]]  parse the compiled-in raw declarations of dictionary `dict` with
+           its <components> children taken in the order i0, i1, ... (indices into the XML order);
+           answer [0, b] (b = 1 iff the result equals the compiled-in dump of the real parser's
+           objects) or [1, error code]
+   request [4, raw]  raw = [fields, groupable, header, comps, msgs] as xml.etree gives them:
+           child = [0, name code, required] | [1, component code] | [2, name code, required, [child..]]
+           comps = [[component code, [child..]], ...]   msgs = [[name code, msg_type, [child..]], ...]
+           answer [0, schema] (format of parse_schema) or [1, error code]
+   error codes: 1 AssertionError, 2 RuntimeError, 3 KeyError, 4 ValueError, 5 header is None,
+                6 outside the model (a group added next to a same-named member) *)
+Fixpoint parse_rchild (fuel : nat) (s : sx) : option rchild :=
+  match fuel with
+  | O => None
+  | S fuel' =>
+      match s with
+      | SL [SI k; n; r] =>
+          if k =? 0 then
+            match get_N n, get_bool r with
+            | Some n', Some r' => Some (RField n' r')
+            | _, _ => None
+            end
+          else None
+      | SL [SI k; c] => if k =? 1 then option_map RComp (get_N c) else None
+      | SL [SI k; n; r; SL ch] =>
+          if k =? 2 then
+            match get_N n, get_bool r, opt_all (map (parse_rchild fuel') ch) with
+            | Some n', Some r', Some ch' => Some (RGroup n' r' ch')
+            | _, _, _ => None
+            end
+          else None
+      | _ => None
+      end
+  end.
+
+Definition parse_rchildren (s : sx) : option (list rchild) :=
+  match s with SL ch => opt_all (map (parse_rchild 64) ch) | _ => None end.
+
+Definition parse_raw (s : sx) : option raw :=
+  match s with
+  | SL [fs; gs; hs; SL cs; SL ms] =>
+      match get_list parse_field fs, get_list get_N gs, parse_rchildren hs,
+            opt_all (map (fun c => match c with
+                                   | SL [n; ch] =>
+                                       match get_N n, parse_rchildren ch with
+                                       | Some n', Some ch' => Some (n', ch')
+                                       | _, _ => None
+                                       end
+                                   | _ => None
+                                   end) cs),
+            opt_all (map (fun m => match m with
+                                   | SL [n; mt; ch] =>
+                                       match get_N n, get_str mt, parse_rchildren ch with
+                                       | Some n', Some mt', Some ch' => Some (n', mt', ch')
+                                       | _, _, _ => None
+                                       end
+                                   | _ => None
+                                   end) ms) with
+      | Some fs', Some gs', Some hs', Some cs', Some ms' => Some (mkRaw fs' gs' hs' cs' ms')
+      | _, _, _, _, _ => None
+      end
+  | _ => None
+  end.
+
+Definition perr_code (e : perr) : Z :=
+  match e with
+  | PAssertion => 1 | PRuntime => 2 | PKeyError => 3 | PValueError => 4 | PHeaderNone => 5
+  | PUnsupported => 6
+  end.
+
+Fixpoint sx_member (m : member) : sx :=
+  match m with
+  | MField f r => SL [SI 0; sx_of_str (f_tag f); sx_of_bool r]
+  | MGroup f r ms => SL [SI 1; sx_of_str (f_tag f); sx_of_bool r; SL (map sx_member ms)]
+  end.
+
+Definition sx_schema_out (s : schema) : sx :=
+  SL [SL (map (fun f => SL [sx_of_str (f_tag f); sx_of_N (f_name f); sx_of_N (f_type f); sx_of_bool (f_enum f)])
+              (s_fields s));
+      SL (map sx_member (s_header s));
+      SL (map (fun p => SL [sx_of_str (fst p); SL (map sx_member (snd p))]) (s_messages s))].
+
+Definition dict_raw (d : Z) : option (raw * schema) :=
+  if d =? 0 then Some (FIX44.decls, FIX44.schema)
+  else if d =? 1 then Some (TT.decls, TT.schema) else None.
+
 Definition run (s : sx) : sx :=
   match s with
+  | SL [SI 3; SI d; perm] =>
+      match dict_raw d, get_list get_N perm with
+      | Some (r, want), Some p =>
+          let comps := map (fun i => nth (N.to_nat i) (r_comps r) (0%N, [])) p in
+          match parse_with r comps with
+          | inl e => SL [SI 1; SI (perr_code e)]
+          | inr got => SL [SI 0; sx_of_bool (schema_eqb got want)]
+          end
+      | None, _ => err_sx 1
+      | _, None => err_sx 2
+      end
+  | SL [SI 4; rw] =>
+      match parse_raw rw with
+      | None => err_sx 1
+      | Some r =>
+          match parse r with
+          | inl e => SL [SI 1; SI (perr_code e)]
+          | inr got => SL [SI 0; sx_schema_out got]
+          end
+      end
   | SL [SI 2; sch; mt; es; vs] =>
       (* answer [wf_schema, outcome] for a schema carried by the request *)
       match parse_schema sch, get_str mt, parse_entries es, get_list parse_verdict vs with
